@@ -255,7 +255,7 @@ def main(run):
             vlib.log("replay: %s\n  impl: %s" % (ln, co))
         if replay_stress:
             lock_stress.stress(run, plan=replay_stress, errpaths=False)
-        elif "errpaths" in open(run.replay).read():
+        elif re.search(r"h_lock_stress (errpaths|wakeup)", open(run.replay).read()):
             lock_stress.stress(run, plan=[], errpaths=True)
         return
     lock_stress.stress(run)
